@@ -108,8 +108,55 @@ Proof.
   - eapply wfenv_ext; eassumption.
 Qed.
 
+(* the weaker frame of statements and of expressions that contain statements: user variables (ids below
+   `bound`) may be declared and written too; temporaries outside [c, c') keep their values *)
+Record wframe (bound c c' : N) (E : env) (st : state) (E' : env) (st' : state) : Prop := mkWframe {
+  wr_incl : forall t p, bound <= t -> sget (fmt_var t) E = Some p -> sget (fmt_var t) E' = Some p;
+  wr_new : forall x p, sget x E' = Some p ->
+           sget x E = Some p \/ in_rng c c' x \/ (exists v, x = fmt_var v /\ v < bound);
+  wr_cells : forall t p, bound <= t -> ~ (c <= t < c') -> sget (fmt_var t) E = Some p -> get_cell st' p = get_cell st p;
+  wr_ncell : (s_ncell st <= s_ncell st')%positive
+}.
+
+Lemma lframe_w bound c c' E st E' st' : lframe c c' E st E' st' -> wframe bound c c' E st E' st'.
+Proof.
+  intros [Hi Hn Hc Ht Hnc Hw Hl]. constructor; auto.
+  - intros x p H. destruct (Hn x p H); auto.
+  - intros t p Hb Hr H. apply (Hc _ _ H). intros (t' & Heq & Hr'). apply fmt_var_inj in Heq. subst. contradiction.
+Qed.
+
+Lemma wframe_refl bound c c' E st : wframe bound c c' E st E st.
+Proof. constructor; auto; lia. Qed.
+
+Lemma wframe_widen bound a b a' b' E st E' st' :
+  wframe bound a b E st E' st' -> a' <= a -> b <= b' -> wframe bound a' b' E st E' st'.
+Proof.
+  intros [Hi Hn Hc Hnc] H1 H2. constructor; auto.
+  - intros x p H. destruct (Hn x p H) as [H'|[H'|H']]; auto. right; left. eapply in_rng_widen; eassumption.
+  - intros t p Hb Hr H. apply (Hc t p Hb); [lia | exact H].
+Qed.
+
+Lemma wframe_trans bound c c' E1 s1 E2 s2 E3 s3 :
+  wframe bound c c' E1 s1 E2 s2 -> wframe bound c c' E2 s2 E3 s3 -> wframe bound c c' E1 s1 E3 s3.
+Proof.
+  intros [Hi Hn Hc Hnc] [Hi' Hn' Hc' Hnc']. constructor.
+  - intros t p Hb H. apply Hi'; [exact Hb|]. apply Hi; assumption.
+  - intros x p H. destruct (Hn' x p H) as [H'|H']; [apply (Hn x p H') | right; exact H'].
+  - intros t p Hb Hr H. rewrite (Hc' t p Hb Hr (Hi _ _ Hb H)). apply (Hc t p Hb Hr H).
+  - lia.
+Qed.
+
+Lemma wframe_forget bound c c' E st E' st' : wframe bound c c' E st E' st' -> wframe bound c c' E st E st'.
+Proof. intros [Hi Hn Hc Hnc]. constructor; auto. Qed.
+
 Definition F_out (bound : N) (F : list N) (c c' : N) : Prop :=
   forall t, In t F -> bound <= t /\ ~ (c <= t < c').
+
+Lemma fut_wframe bound F c c' E st E' st' : wframe bound c c' E st E' st' -> F_out bound F c c' -> fut F E st E' st'.
+Proof.
+  intros Hf HF t p Ht Hp. destruct (HF t Ht) as [Hb Hr].
+  split; [apply (wr_incl _ _ _ _ _ _ _ Hf); assumption | apply (wr_cells _ _ _ _ _ _ _ Hf t p Hb Hr Hp)].
+Qed.
 
 Lemma fut_lframe bound F c c' E st E' st' : lframe c c' E st E' st' -> F_out bound F c c' -> fut F E st E' st'.
 Proof.
